@@ -15,7 +15,8 @@ from typing import Any
 
 from harness.c05 import show_recs, write_v, write_vb
 from harness.common import Check, err_enum, hexs
-from harness.gen_copybook import Node, Style, TreeGen, clusters_ok, item_tokens, node_size, path_token, preorder, render, spec_layout
+from harness.gen_copybook import (Node, Style, TreeGen, clusters_ok, item_tokens, node_size, number_fillers, path_token, preorder, render,
+                                  spec_layout)
 from harness.layout_common import build_docs, impl_range, load, pattern_record
 
 CAP = 32768
@@ -168,11 +169,68 @@ def one_tree(ck: Check, root: Node, reqs: list[str], impl: list[str], inputs: li
             inputs.append({**inp, "what": "rows of the RECFM N file"})
 
 
+def wide_tree(rng) -> Node:
+    """a table whose rows can be longer than half of the reader's 32768-byte buffer: 01 REC. 05 CT. 05 TBL OCCURS 0 TO n DEPENDING ON CT."""
+    w = rng.choice([40, 64, 100, 250])
+    hi = min(999, (CAP - 200) // w)
+    binary = rng.random() < 0.5
+    ct = Node(5, "CT", pic="9(4)" if binary else "9(3)", usage="COMP" if binary else None, width=2 if binary else 3)
+    head = Node(5, "HEAD", pic=f"X({rng.randint(1, 30)})")
+    head.width = int(head.pic[2:-1])  # type: ignore[index]
+    cell_a = Node(10, "CELL-A", pic=f"X({w - 2})", width=w - 2)
+    cell_b = Node(10, "CELL-B", pic="9(4)", usage="COMP", width=2)
+    tbl = Node(5, "TBL", odo=(0, hi, "CT"), children=[cell_a, cell_b])
+    tail = Node(5, "TAIL", pic="X(3)", width=3)
+    root = Node(1, "WIDE-REC", children=[head, ct, tbl] + ([tail] if rng.random() < 0.5 else []))
+    number_fillers(root)
+    return root
+
+
+def wide_file(ck: Check, root: Node, reqs: list[str], impl: list[str], inputs: list[Any]) -> None:
+    """RECFM N files of rows whose lengths straddle every threshold of the buffer: tiny rows, rows of about half the buffer, rows just
+    under the buffer, in orders that leave every amount of unread data in front of a long row"""
+    from stingray.workbook import COBOL_EBCDIC_File
+
+    rng = ck.rng
+    text = render([root])
+    toks = " ".join(item_tokens(root))
+    kinds = kinds_token(root)
+    schema = load(build_docs(text)[0])
+    lo, hi, _ = tables_of(root)[0].odo  # type: ignore[misc]
+    one = sum(c.width for c in tables_of(root)[0].children)
+    half = (CAP // 2) // one
+    shapes = [[2, hi, 1, hi, 0], [half, half + 1, 1], [half + 1, half + 1, half + 1, 3], [hi, hi, hi], [half - 1, half, half + 1, half + 2, hi],
+              [rng.randint(0, hi) for _ in range(rng.randint(3, 8))], [rng.choice([0, 1, half, half + 1, hi]) for _ in range(rng.randint(3, 8))]]
+    for counts in shapes:
+        recs = [build_record(root, {"CT": c}, salt=k * 7) for k, c in enumerate(counts)]
+        data = b"".join(recs)
+        inp = {"copybook": text, "recfm": "N", "counts": counts, "record_lengths": [len(r) for r in recs]}
+        ck.case((toks, "wide", tuple(counts)), feature="file/N/wide-rows")
+        ck.oracle_evaluations += 1
+        got: list[bytes] = []
+        err = None
+        try:
+            wb = COBOL_EBCDIC_File("x.data", file_object=io.BytesIO(data), lrecl=1)
+            for row in wb.sheet("").set_schema(schema).rows():
+                got.append(bytes(row.instance[:row.nav.location.end]))  # type: ignore[attr-defined]
+                if len(got) > len(recs) + 5:
+                    break
+        except BaseException as ex:  # noqa: BLE001
+            err = err_enum(ex)
+        if err or got != recs:
+            ck.fail("odo-file", f"RECFM N, rows of {[len(r) for r in recs]} bytes: read back {[len(g) for g in got]}" + (f", {err}" if err else ""), inp)
+        reqs.append(f"LAY rows {CAP} {kinds} {hexs(data)} {toks}")
+        impl.append(show_recs(got) + (" error" if err else " ok"))
+        inputs.append({**inp, "what": "rows of the RECFM N file"})
+
+
 def explore(ck: Check, n_trees: int, n_big: int) -> None:
     rng = ck.rng
     reqs: list[str] = []
     impl: list[str] = []
     inputs: list[Any] = []
+    for _ in range(max(2, n_big)):
+        wide_file(ck, wide_tree(rng), reqs, impl, inputs)
     made = 0
     attempts = 0
     while made < n_trees and attempts < n_trees * 20:
